@@ -6,8 +6,13 @@ import ZnVerif.Ops.C04
 
 open ZnVerif.Ops
 
+/-- one handler per ops module; first `some` wins -/
+def handlers : List (String → List String → Option String) := [
+  C04.handle
+]
+
 def dispatch (op : String) (args : List String) : String :=
-  match C04.handle op args with
+  match handlers.findSome? (fun h => h op args) with
   | some r => r
   | none => "bad-op"
 
